@@ -83,7 +83,7 @@ KEYS = ["'", '"', "\\", "{", "}", "{x}", "{{", "$x", "${x}", "%s", "%(a)s", "\n"
         '"]);__canary__()#', "'];__canary__()#", "\\'];__canary__()#", "f'{__canary__()}'", "{data}", "{self}", " ", "𝒳", "퟿",
         "0", "-1", "1.5"]
 CLASS_NAMES = ["Model", "we ird", "quo'te", 'dq"uote', "a.b", "a[b]", "class", "True", "None", "", "1abc", "__canary__", "x;__canary__()",
-               "名前", "{x}", "a\nb", "def", "lambda", "with-dash"]
+               "名前", "{x}", "a\nb", "def", "lambda", "with-dash", "M\u00b2", "x\u00bd", "\u00b5Model"]
 
 
 # ------------------------------------------------------------------------------------------------------------
@@ -588,7 +588,9 @@ def run(tier):
     shards = [("ident", pairs[i::96], tier) for i in range(96) if pairs[i::96]]
     shards += [("keys", KEYS[i::16], tier) for i in range(16) if KEYS[i::16]]
     shards += [("classes", CLASS_NAMES[i::8], tier) for i in range(8) if CLASS_NAMES[i::8]]
-    kw_names = [n for n in [*keyword.kwlist, *getattr(keyword, "softkwlist", []), "print", "self", "cls", "data"] if not n.startswith("_")]
+    # ... and identifiers that Python would NFKC-normalise if they were written in source (MICRO SIGN, a ligature, FEMININE ORDINAL)
+    kw_names = [n for n in [*keyword.kwlist, *getattr(keyword, "softkwlist", []), "print", "self", "cls", "data",
+                            "\u00b5s", "\ufb01eld", "x\u00aa"] if not n.startswith("_")]
     shards += [("kwfields", kw_names[i::8], tier) for i in range(8) if kw_names[i::8]]
     conv_items = [("field_name", x) for x in ids] + [("nested_field_name", x) for x in ids]
     conv_items += [("field_pair", (x, p + x)) for x in ids[:40] for p in ("f_", "r_", "v_", "coercer_", "src_") if (p + x).isidentifier()]
